@@ -83,6 +83,15 @@ func (v *VerifQueue) HandleTxUsed(id uint64) {
 	v.q.HandleTxsUsed([]hash.Hash{hash.NewFromBytes(raw)})
 }
 
+// HandleTxsUsed calls mainQueue.HandleTxsUsed once with the given transactions, in the given order.
+func (v *VerifQueue) HandleTxsUsed(ids []uint64) {
+	hashes := make([]hash.Hash, 0, len(ids))
+	for _, id := range ids {
+		hashes = append(hashes, hash.NewFromBytes([]byte(fmt.Sprintf("verif-tx-%d", id))))
+	}
+	v.q.HandleTxsUsed(hashes)
+}
+
 // Forward calls mainQueueScheduler.forward.
 func (v *VerifQueue) Forward(sender string, seq uint64) {
 	v.q.scheduler.forward(sender, seq)
